@@ -12,6 +12,7 @@ import (
 	abci "github.com/cometbft/cometbft/abci/types"
 	cmttypes "github.com/cometbft/cometbft/types"
 	sdk "github.com/cosmos/cosmos-sdk/types"
+	signingtypes "github.com/cosmos/cosmos-sdk/types/tx/signing"
 	authtypes "github.com/cosmos/cosmos-sdk/x/auth/types"
 	consensustypes "github.com/cosmos/cosmos-sdk/x/consensus/types"
 	"github.com/ethereum/go-ethereum/beacon/engine"
@@ -767,4 +768,161 @@ func (w *World) forcedPayloadUnknownToEngine(s *Node, txs [][]byte) bool {
 		return false
 	}
 	return !s.EL.Known[common.BytesToHash(m.Payload.BlockHash)]
+}
+
+// shadowDiff (C02, C10, C19): a failed transaction leaves every module's state exactly as it
+// was. The block is executed on two forks of the node's pre-block disk, once as decided and once
+// without its failed transactions; the four module stores must end up equal (the signer's account
+// sequence legitimately differs, so the account store is not compared).
+func (w *World) shadowDiff(n *Node, b *DecidedBlock, resp *abci.ResponseFinalizeBlock) {
+	var kept [][]byte
+	failed := 0
+	var failedKinds []string
+	for i, tx := range b.Txs {
+		if i < len(resp.TxResults) && resp.TxResults[i].Code != 0 && i > 0 {
+			// A transaction that failed while executing its messages has consumed its account
+			// sequence: it is replaced by a placeholder of the same signer and sequence whose only
+			// message fails before any write (accepting the proposer role for an epoch far away).
+			// A transaction refused by the ante handler consumed nothing and is left out.
+			r := resp.TxResults[i]
+			anteRefusal := r.Codespace == "sdk" && !strings.Contains(r.Log, "failed to execute message") &&
+				(r.Code == 2 || r.Code == 4 || r.Code == 8 || r.Code == 12 || r.Code == 21 || r.Code == 30 || r.Code == 32)
+			if !anteRefusal {
+				ph := w.placeholderFor(n, tx)
+				if ph == nil {
+					return // unknown signer: cannot build the comparison block
+				}
+				kept = append(kept, ph)
+			}
+			failed++
+			failedKinds = append(failedKinds, txSummary(w, tx))
+			continue
+		}
+		kept = append(kept, tx)
+	}
+	if failed == 0 {
+		return
+	}
+	w.probe("shadow-differential")
+	for _, p := range []string{"C02", "C10", "C19"} {
+		w.Stats.OracleEvals[p]++
+	}
+	a := w.shadow(n, uint64(b.Height)*7+1)
+	defer a.discard()
+	c := w.shadow(n, uint64(b.Height)*7+2)
+	defer c.discard()
+	if a.Height != b.Height-1 || c.Height != b.Height-1 {
+		return
+	}
+	b2 := *b
+	b2.Txs = kept
+	ra, oa, ea := w.Cmt.finalizeOn(a, b, nil)
+	rc, oc, ec := w.Cmt.finalizeOn(c, &b2, nil)
+	if oa.Panic != nil || ea != nil || oc.Panic != nil || ec != nil || ra == nil || rc == nil {
+		return
+	}
+	a.run("commit", func() { a.App.Commit() })
+	c.run("commit", func() { c.App.Commit() })
+	a.Height, c.Height = b.Height, b.Height
+	// the placeholders must have failed too, otherwise the comparison block is not what it is meant to be
+	for i, r := range rc.TxResults {
+		if i > 0 && i < len(ra.TxResults) && (r.Code == 0) != (ra.TxResults[i].Code == 0) && len(kept) == len(b.Txs) {
+			return
+		}
+	}
+	da, dc := a.moduleDigest(true), c.moduleDigest(true)
+	for _, name := range []string{"relayer", "bitcoin", "locking", "goat"} {
+		if da[name] != dc[name] {
+			keys := diffDumps(a.storeDump(name), c.storeDump(name))
+			if len(keys) > 4 {
+				keys = keys[:4]
+			}
+			shape := name + ":" + storeKeyShape(keys)
+			var codes []string
+			for i := range ra.TxResults {
+				cc := -1
+				if i < len(rc.TxResults) {
+					cc = int(rc.TxResults[i].Code)
+				}
+				codes = append(codes, fmt.Sprintf("%d:%d/%d", i, ra.TxResults[i].Code, cc))
+			}
+			detail := fmt.Sprintf("height %d: executing the block with and without its %d failed transaction(s) (%v) leaves store %q different at keys %v; codes as decided/with placeholders %v", b.Height, failed, failedKinds, name, keys, codes)
+			w.violate("C19", "failed-tx-changed-state", shape, "%s", detail)
+			w.violate("C02", "failed-proposal-changed-state", shape, "%s", detail)
+			w.violate("C10", "rejected-tx-changed-state", shape, "%s", detail)
+			return
+		}
+	}
+}
+
+// multiSchedule (C08): building the proposal again on the same state under other goroutine
+// schedules gives the same mempool selection and the same system-transaction prefix.
+func (w *World) multiSchedule(pn *Node, h int64, t time.Time, proposer []byte, eci abci.ExtendedCommitInfo, txs [][]byte, k int) {
+	sig := func(txs [][]byte) string {
+		var parts []string
+		for _, tx := range txs[minInt(1, len(txs)):] {
+			parts = append(parts, hx(sha(tx))[:12])
+		}
+		goat := "none"
+		if len(txs) > 0 {
+			if tx, err := w.decodeTx(txs[0]); err == nil && len(tx.GetMsgs()) == 1 {
+				if m, ok := tx.GetMsgs()[0].(*goatmodtypes.MsgNewEthBlock); ok && m.Payload != nil && len(m.Payload.ExtraData) == 33 {
+					n := int(m.Payload.ExtraData[0])
+					if n <= len(m.Payload.Transactions) {
+						goat = hx(sha(m.Payload.Transactions[:n]...))[:12]
+					}
+				}
+			}
+		}
+		return fmt.Sprintf("%d txs [%s] system-prefix %s", len(txs), strings.Join(parts, ","), goat)
+	}
+	want := sig(txs)
+	saved := w.SchedSalt
+	defer func() { w.SchedSalt = saved }()
+	for i := 1; i <= k; i++ {
+		w.SchedSalt = saved + uint64(i)*1000003
+		got, out, err := w.Cmt.prepareOn(pn, h, t, proposer, eci, nil)
+		w.Stats.OracleEvals["C08"]++
+		if out.Panic != nil || err != nil || pn.lastFaulted {
+			continue
+		}
+		if s := sig(got); s != want {
+			w.violate("C08", "proposal-depends-on-schedule", "schedule", "height %d: node %d built different proposals on the same state under different goroutine schedules\n first: %s\n other: %s", h, pn.ID, want, s)
+			return
+		}
+	}
+	w.probe("proposal-rebuilt-under-other-schedules")
+}
+
+// placeholderFor builds a transaction of the same signer and account sequence as raw whose only
+// message fails before it writes anything.
+func (w *World) placeholderFor(n *Node, raw []byte) []byte {
+	tx, err := w.decodeTx(raw)
+	if err != nil {
+		return nil
+	}
+	sv, ok := tx.(interface {
+		GetSignaturesV2() ([]signingtypes.SignatureV2, error)
+	})
+	if !ok {
+		return nil
+	}
+	sigs, err := sv.GetSignaturesV2()
+	if err != nil || len(sigs) != 1 {
+		return nil
+	}
+	addr := sdk.AccAddress(sigs[0].PubKey.Address())
+	m := w.rel().ByAddr[addr.String()]
+	if m == nil {
+		return nil
+	}
+	num, _, ok2 := n.account(addr)
+	if !ok2 {
+		return nil
+	}
+	ph, err := w.buildTx(TxOpts{Msgs: []sdk.Msg{&relayertypes.MsgAcceptProposerRequest{Proposer: m.Addr(), Epoch: 1 << 60}}, Signer: m.Tx, AccNum: num, Seq: sigs[0].Sequence})
+	if err != nil {
+		return nil
+	}
+	return ph
 }
